@@ -118,6 +118,59 @@ type Outer struct {
 	Extra bool `json:"extra"`
 }
 
+// Catalog: a named struct type (Leaf) that occurs twice inside the element struct of a slice, with a sibling of another
+// type in between — and the same below a map and below four levels of plain nesting.
+type Leaf struct {
+	V int `json:"v"`
+}
+type Other struct {
+	W string `json:"w"`
+}
+type Entry struct {
+	First  Leaf   `json:"first"`
+	Second Other  `json:"second"`
+	Third  Leaf   `json:"third"`
+	Fourth *Other `json:"fourth,omitempty"`
+	More   []Leaf `json:"more,omitempty"`
+}
+type Catalog struct {
+	Title string  `json:"title"`
+	Items []Entry `json:"items"`
+}
+type Registry struct {
+	ByKey map[string]Entry2 `json:"by_key"`
+}
+type Entry2 struct {
+	A Other `json:"a"`
+	B Leaf  `json:"b"`
+	C Other `json:"c"`
+	D *Leaf `json:"d,omitempty"`
+}
+type Deep4 struct {
+	A struct {
+		B struct {
+			C struct {
+				First  Leaf  `json:"first"`
+				Second Other `json:"second"`
+				Third  Leaf  `json:"third"`
+			} `json:"c"`
+		} `json:"b"`
+	} `json:"a"`
+}
+
+// Args: the usual shape of a tool's argument struct — required scalars and optional containers.
+type Sub struct {
+	K string `json:"k"`
+}
+type Args struct {
+	Name  string            `json:"name"`
+	Count int               `json:"count"`
+	Tags  []string          `json:"tags,omitempty"`
+	Opt   *Sub              `json:"opt,omitempty"`
+	Attrs map[string]string `json:"attrs,omitempty"`
+	Rate  float64           `json:"rate,omitempty"`
+}
+
 type corpusEntry struct {
 	name      string
 	t         reflect.Type
@@ -136,6 +189,10 @@ func corpus() []corpusEntry {
 		{"Wide", reflect.TypeOf(Wide{}), "", true},
 		{"Holder", reflect.TypeOf(Holder{}), "", true},
 		{"Shared", reflect.TypeOf(Shared{}), "", false},
+		{"Catalog", reflect.TypeOf(Catalog{}), "", false},
+		{"Registry", reflect.TypeOf(Registry{}), "", false},
+		{"Deep4", reflect.TypeOf(Deep4{}), "", false},
+		{"Args", reflect.TypeOf(Args{}), "", false},
 		{"Generic", reflect.TypeOf(Generic{}), "generic-name", false},
 		{"Clash", reflect.TypeOf(Clash{}), "name-clash", false},
 		{"Stamp", reflect.TypeOf(Stamp{}), "time", false},
